@@ -225,6 +225,29 @@ func classifyDeath(stderr string) string {
 	case strings.Contains(stderr, "all goroutines are asleep"):
 		return "deadlock"
 	}
+	// a panic that no recover() stands behind: statements run under recover
+	// in the session task, so this is a panic in a goroutine mkdb started
+	// itself (the flusher, csvimport's worker) - the process a user runs dies
+	// the same way. Only if the panicking frame is mkdb code: a panic raised
+	// by the simulator's own hook handlers stays harness trouble.
+	if i := strings.Index(stderr, "\npanic: "); i >= 0 || strings.HasPrefix(stderr, "panic: ") {
+		if i < 0 {
+			i = 0
+		}
+		rest := stderr[i:]
+		if j := strings.Index(rest, "[running]:"); j >= 0 {
+			for _, line := range strings.Split(rest[j:], "\n")[1:] {
+				line = strings.TrimSpace(line)
+				if line == "" || strings.HasPrefix(line, "/") || strings.HasPrefix(line, "panic(") || strings.HasPrefix(line, "runtime.") || strings.HasPrefix(line, "runtime/") {
+					continue
+				}
+				if strings.HasPrefix(line, "github.com/mk6i/mkdb/") && !strings.Contains(line, ".verif") && !strings.Contains(line, ".Verif") {
+					return "panic-in-background-goroutine"
+				}
+				break
+			}
+		}
+	}
 	return ""
 }
 
